@@ -9,9 +9,13 @@
 (* Variant = {} (repaired design) must pass; Variant = Pinned (the tree as *)
 (* originally pinned) is expected to fail (ExportIndication with a path,   *)
 (* SCOPE ANY, real keys in CIMObject); the regression flags (keephost,    *)
-(* hdr_before_default, minst_order, ns_drop_empty) must fail.  With        *)
-(* Emit = TRUE the same run prints the cases as JSON for the harness (the  *)
-(* WireOps_Gen role).                                                      *)
+(* hdr_before_default, minst_order, ns_drop_empty, wrap_host_first,        *)
+(* name_host_first) must fail.  The object case space (ObjCases:           *)
+(* tocimxml() of names / instances / classes / properties / parameter      *)
+(* values over path shape x ignore arguments x reference shapes) is        *)
+(* checked the same way (ValidTree; no headers).  With Emit = TRUE the     *)
+(* same run prints the cases as JSON for the harness (the WireOps_Gen      *)
+(* role).                                                                  *)
 (***************************************************************************)
 EXTENDS WireOpsImplOps, Json, FiniteSets
 
@@ -19,7 +23,7 @@ CONSTANTS K, Variant, Emit
 
 VARIABLE c
 
-Init == c \in Cases(K)
+Init == c \in Cases(K) \cup ObjCases
 Next == UNCHANGED c
 Spec == Init /\ [][Next]_c
 
@@ -27,19 +31,20 @@ Spec == Init /\ [][Next]_c
 (* cases), so that TLC's workers share the evaluation (initial states are   *)
 (* computed by one thread).  States that are not cases satisfy every        *)
 (* invariant vacuously.                                                      *)
-IsCase == "args" \in DOMAIN c
+IsCase == "args" \in DOMAIN c \/ "kind" \in DOMAIN c
 InitPar == c = [op |-> "#start"]
 NextPar == \/ /\ DOMAIN c = {"op"} /\ c.op = "#start"
-              /\ \E o \in Ops : c' = [op |-> o, stage |-> "#op"]
+              /\ \E o \in Ops \cup {"#obj"} : c' = [op |-> o, stage |-> "#op"]
            \/ /\ DOMAIN c = {"op", "stage"}
-              /\ c' \in CasesOfOp(c.op, K)
+              /\ c' \in IF c.op = "#obj" THEN ObjCases ELSE CasesOfOp(c.op, K)
 SpecPar == InitPar /\ [][NextPar]_c
-NonCaseStates == Cardinality(Ops) + 1
+NonCaseStates == Cardinality(Ops) + 2
 
-R == ImplReq(c, Variant)
+R == DocOf(c, Variant)
 
 AsEvent(r) ==
-  [kind |-> "req", emitted |-> r.emit, wf |-> TRUE, cls |-> <<"ascii">>,
+  [kind |-> IF IsObjCase(c) THEN "obj" ELSE "req",
+   emitted |-> r.emit, wf |-> TRUE, cls |-> <<"ascii">>,
    tree |-> r.tree,
    hdr |-> [mhas |-> TRUE, mok |-> TRUE, ohas |-> r.hdr.form # "none",
             ook |-> TRUE, method |-> r.hdr.method, form |-> r.hdr.form,
@@ -47,7 +52,7 @@ AsEvent(r) ==
             keys |-> r.hdr.keys]]
 
 ImplValid == IsCase => (R.emit => ValidTree(R.tree))
-ImplHeaders == IsCase =>
+ImplHeaders == (IsCase /\ ~IsObjCase(c)) =>
                  ((R.emit /\ ValidTree(R.tree)) => HeaderFaults(AsEvent(R)) = {})
 ImplReqOk == IsCase => Fails(InitState, AsEvent(R)) = {}
 
@@ -59,6 +64,33 @@ ASSUME \A cl \in NsClasses :
          \A role \in {{"d1", "d2", "de", "dg"}, {"a1", "a2", "ae", "ag"},
                       {"o", "oe", "og"}, {"c", "ce", "cg"}, {"r", "re", "rg"}} :
            \E id \in role : NsClassOf(NsTok(id)) = cl
+(* every path shape occurs for every kind that has or is a path, with every *)
+(* combination of its ignore arguments; every reference shape occurs in     *)
+(* every place a reference value can stand                                  *)
+ASSUME \A sh \in PathShapes \ {"none"} :
+         /\ \E f \in InstForms : PathShapeOf(f) = sh
+         /\ \E f \in ClassForms : PathShapeOf(f) = sh
+ASSUME \A kind \in {"iname", "cname", "inst", "class"} :
+         \A sh \in PathShapes \ (IF kind \in {"inst", "class"} THEN {} ELSE {"none"}) :
+           \A ign \in (IF kind = "inst" THEN InstIgnSeqs
+                       ELSE IF kind = "class" THEN {<<>>} ELSE NameIgnSeqs) :
+             \E oc \in ObjCases :
+               oc.kind = kind /\ PathShapeOf(oc.f) = sh /\ oc.ign = ign
+ASSUME \A sh \in RefShapes :
+         /\ \E oc \in ObjCases : oc.kind = "prop" /\ oc.pr = <<sh>>
+         /\ \E oc \in ObjCases : oc.kind = "inst" /\ oc.pr = <<sh>>
+         /\ \E oc \in ObjCases : oc.kind = "class" /\ oc.pr = <<sh>>
+         /\ \E oc \in ObjCases :
+              oc.kind = "param" /\ oc.pr = <<IF sh = "ref" THEN "refi" ELSE sh>>
+         /\ sh \in InstRefShapes =>
+              /\ \E oc \in ObjCases : oc.kind = "iname" /\ oc.kb = <<sh>>
+              /\ \E oc \in ObjCases : oc.kind = "inst" /\ oc.kb = <<sh>>
+         /\ sh \in PropShapes /\ <<sh>> \in InstContents
+         /\ (IF sh = "ref" THEN "refi" ELSE sh) \in MParamShapes
+ASSUME \A sh \in InstRefShapes : <<sh>> \in KbShapes
+ASSUME \A sh \in RefShapes : RefSpec(sh).deep # "" => RefSpec(sh).deep \in InstRefShapes
 ASSUME PrintT(<<"OPTABLE", ToJson(OpTable)>>)
+ASSUME PrintT(<<"REFSPEC", ToJson([sh \in RefShapes \cup {"refi"} |-> RefSpec(sh)])>>)
+ASSUME PrintT(<<"MREFARRAYS", ToJson(MRefArrays)>>)
 ASSUME PrintT(<<"ITERTARGET", ToJson(IterTarget)>>)
 =============================================================================
